@@ -572,6 +572,8 @@ def m_unwrap_or_default(c):
         return Int(z3.BitVecVal(0, t.n), t.mut)
     if t is not None and t.kind == 'bool':
         return z3.BoolVal(False)
+    if t is not None and t.kind == 'adt' and t.name == 'Duration':
+        return Struct('Duration', {0: Int(z3.BitVecVal(0, 64), False)})
     raise Unsupported('unwrap_or_default for ' + str(c.dest_ty))
 
 
